@@ -122,6 +122,17 @@ CHECKS = {
        "conditions are.",
   note="trusted: API constants of the four codec libraries",
   technique="static analysis: exhaustive branch evaluation over enumerated return codes + dominance/constant rules on LLVM IR"),
+ "C08": dict(
+  text="Necessary structural conditions for 'equal checksum and size alone never share storage': tools enable byte "
+       "comparison (constant flags, descriptor fields from the opened file/uncompressor); loop-exit classification of the "
+       "block-run search (loop bound / hash-only configuration / result of check_file_range_equal only, helper-"
+       "transparent) with argument provenance; return classification of the fragment comparator (memcmp==0 over candidate "
+       "bytes+offset vs current fragment, or constant under a NULL test of the configuration on every incoming edge); "
+       "typestate of proc->current_frag at every fragment hash-table query and lookup-error test after it; in-flight "
+       "copy taken before submit and freed only where the block is written; fragment re-read cache coherence. Does not "
+       "decide that identical data DOES share storage, nor check_file_range_equal's arithmetic.",
+  note="trusted: memcmp / check_file_range_equal compare bytes faithfully",
+  technique="static analysis: loop-exit and return classification, typestate and must-precede rules on LLVM IR"),
 }
 
 NA_DEFAULT = "rules designed in DESIGN.md, not implemented yet (work in progress)"
